@@ -22,6 +22,7 @@ RULE = (
     ' Round 6: traffic of unknown nodes 250-255; `tick` ops advance a fake process clock (time.monotonic/time.time) by seconds to months.'
     ' Round 7: `hang_answers` (answer on the wire, write stalls, listener cancelled); `remove` ops (the application decommissions nodes).'
     ' Round 8: numeric/odd id-request payloads; `two-gateways` kind.'
+    ' Round 9: traffic / gateway messages / flags / sessions between requests; a node that vanishes from the registry without the application removing it is reported.'
 )
 ASSUMPTIONS = ["the allocation policy itself is not fixed by the statement: any fresh id in 1..254 is accepted"]
 DELETABLE = ("ops", "fail_answers")
